@@ -63,6 +63,7 @@ static uint64_t time_a(void) { E.n_time++; E.last_table = 0; logc('T'); if (E.cl
 static uint64_t time_b(void) { E.n_time++; E.last_table = 1; logc('T'); return E.clock[1]; }
 
 int E_kdf_table;   /* which table's KDF is executing */
+size_t E_kdf_write_limit;   /* 0 = write the whole key */
 void (*E_kdf_hook)(uint8_t *key, size_t keylen);   /* called after the key is written (C04 page protection) */
 
 static void dep_kdf(const uint8_t *pw, size_t pwlen, const uint8_t *salt, size_t saltlen,
@@ -70,14 +71,15 @@ static void dep_kdf(const uint8_t *pw, size_t pwlen, const uint8_t *salt, size_t
     E.n_kdf++; logc('K');
     /* the key buffer belongs to the callee: scribble over it before the inputs are read (a caller passing a key buffer
      * that overlaps the password or the salt is exposed) */
-    for (size_t i = 0; i < keylen; i++) key[i] = 0xEE;
+    size_t wl = E_kdf_write_limit && keylen > E_kdf_write_limit ? E_kdf_write_limit : keylen;       /* cases with key lengths beyond any real buffer only look at the arguments */
+    for (size_t i = 0; i < wl; i++) key[i] = 0xEE;
     struct kdfcall *k = &E.kdf;
     k->table = E_kdf_table; k->pwptr = pw; k->pwlen = pwlen; k->saltlen = saltlen; k->iters = iters; k->key = key; k->keylen = keylen;
     memset(k->pw, 0, sizeof k->pw); memset(k->salt, 0, sizeof k->salt);
     memcpy(k->pw, pw, pwlen < sizeof k->pw ? pwlen : sizeof k->pw);
     memcpy(k->salt, salt, saltlen < sizeof k->salt ? saltlen : sizeof k->salt);
-    if (saltlen == 16) for (size_t i = 0; i < keylen; i++) key[i] = E.mask[i % 32];
-    else for (size_t i = 0; i < keylen; i++) key[i] = (uint8_t)(E.keyfill + i);
+    if (saltlen == 16) for (size_t i = 0; i < wl; i++) key[i] = E.mask[i % 32];
+    else for (size_t i = 0; i < wl; i++) key[i] = (uint8_t)(E.keyfill + i);
     if (E_kdf_hook) E_kdf_hook(key, keylen);
 }
 static void dep_kdf_b(const uint8_t *pw, size_t pwlen, const uint8_t *salt, size_t saltlen, uint64_t iters, uint8_t *key, size_t keylen) {
@@ -219,6 +221,7 @@ polyseed_data *seed_from_ref(const rseed *r) {
 /* the same abstract seed, but produced by polyseed_create (+ polyseed_crypt with an all-zero
  * mask for the encrypted flag), so the library computes the check value itself */
 uint64_t E_create_clock_shift;
+unsigned E_create_high_bits;       /* argument bits above the three feature bits, set by a case that wants them (they must not reach the seed) */
 polyseed_data *seed_via_create(const rseed *r) {
     if (r->features & 8) return NULL;
     uint8_t keep_tape[32], keep_mask[32]; uint64_t keep_clock = E.clock[0];
@@ -226,7 +229,7 @@ polyseed_data *seed_via_create(const rseed *r) {
     memset(E.tape[0], 0, 32); memcpy(E.tape[0], r->secret, 19);
     E.clock[0] = ref_birthday_time(r->birthday) + 1 + E_create_clock_shift;
     polyseed_data *s = NULL;
-    if (polyseed_create(r->features & 7, &s) != POLYSEED_OK) s = NULL;
+    if (polyseed_create((r->features & 7) | E_create_high_bits, &s) != POLYSEED_OK) s = NULL;     /* only the three low bits of the argument are the features */
     if (s && (r->features & 16)) { memset(E.mask, 0, 32); polyseed_crypt(s, ""); }
     memcpy(E.tape[0], keep_tape, 32); memcpy(E.mask, keep_mask, 32); E.clock[0] = keep_clock;
     return s;
